@@ -44,6 +44,37 @@ impl CaseIo for Case {
 
 const ENTRY: &str = "v2::Header::try_from(&[u8])";
 
+/// The bytes appended to complete a truncated header ("whatever their values"): by seed class either filler
+/// bytes (random / all zero / all 0xFF / ASCII / signature-like, see engine::fill) or - one seed in four - a
+/// run of well-formed TLVs with registered type codes and short values (so that a parser which starts to
+/// interpret the completed TLV region, e.g. to verify a checksum TLV, is exercised), cut to exactly `n` bytes.
+pub fn completion_bytes(seed: u32, n: usize) -> Vec<u8> {
+    if seed % 4 != 3 || seed >= 0xffff_fff0 {
+        return fill(seed, n);
+    }
+    let noise = fill(seed | 1, n + 64);
+    let mut out = Vec::with_capacity(n + 8);
+    let mut i = 0usize;
+    const KINDS: [u8; 14] = [0x01, 0x02, 0x03, 0x03, 0x03, 0x04, 0x05, 0x20, 0x21, 0x22, 0x23, 0x24, 0x25, 0x30];
+    while out.len() < n {
+        let kind = KINDS[noise[i % noise.len()] as usize % KINDS.len()];
+        let len = match noise[(i + 1) % noise.len()] % 4 {
+            0 => 4usize,
+            1 => 0,
+            2 => (noise[(i + 2) % noise.len()] % 9) as usize,
+            _ => 4,
+        };
+        out.push(kind);
+        out.extend_from_slice(&(len as u16).to_be_bytes());
+        for k in 0..len {
+            out.push(noise[(i + 3 + k) % noise.len()]);
+        }
+        i += 3 + len;
+    }
+    out.truncate(n);
+    out
+}
+
 /// Check one input against the statement; `deep` also runs the completion metamorphic steps.
 pub fn judge_with(c: &Case, st: &mut Stats, deep: bool) -> Verdict {
     st.eval();
@@ -88,7 +119,7 @@ pub fn judge_with(c: &Case, st: &mut Stats, deep: bool) -> Verdict {
                 return Ok(());
             }
             let missing = need - have;
-            let extra = fill(c.fill_seed, missing);
+            let extra = completion_bytes(c.fill_seed, missing);
             // supplying exactly the missing bytes gives a success
             let mut full = x.clone();
             full.extend_from_slice(&extra);
@@ -156,18 +187,26 @@ fn gen_case(t: &mut Tape) -> Case {
                 _ => *t.pick(&[65535usize, 65534, 12, 36, 216, 217]),
             };
             h.extend_from_slice(&(l as u16).to_be_bytes());
-            h.extend(fill(t.u32() | 1, l));
+            h.extend(fill(crate::engine::gen_seed(t), l));
             h
         }
         _ => gen::gen_v2_mutant(t).0,
     };
-    let cut = match t.weighted(&[3, 3, 2, 1]) {
+    let cut = match t.weighted(&[3, 3, 2, 1, 3]) {
         0 => t.below(h.len() as u32 + 1) as usize,
         1 => t.below(17.min(h.len() as u32 + 1)) as usize,
         2 => h.len().saturating_sub(t.usize_in(1, 3)),
-        _ => h.len(),
+        3 => h.len(),
+        // right behind the address block (or a few TLV-sized steps further): the completion bytes then start
+        // on a TLV boundary, so a TLV-structured completion is seen as TLVs by a parser that looks at them
+        _ => {
+            let fam = if h.len() > 13 { (h[13] >> 4) as usize & 3 } else { 0 };
+            16 + crate::oracle::v2::NEED[fam] + *t.pick(&[0usize, 0, 0, 3, 7])
+        }
     };
-    Case { input: h[..cut.min(h.len())].to_vec(), fill_seed: t.u32() }
+    // completion content: one case in three uses the TLV-structured class (seed = 3 mod 4)
+    let fill_seed = if t.chance(1, 3) { t.u32() | 3 } else { crate::engine::gen_seed(t) };
+    Case { input: h[..cut.min(h.len())].to_vec(), fill_seed }
 }
 
 pub fn run(r: &mut Runner) -> &'static str {
@@ -212,7 +251,7 @@ pub fn run(r: &mut Runner) -> &'static str {
                 let lu = l as usize;
                 let mut haves: Vec<usize> = (0..16).collect();
                 if lu >= need.max(1) {
-                    for k in [0usize, 1, 2, lu / 2, lu.saturating_sub(2), lu - 1] {
+                    for k in [0usize, 1, 2, need, lu / 2, lu.saturating_sub(2), lu - 1] {
                         if k < lu {
                             haves.push(16 + k);
                         }
@@ -237,8 +276,10 @@ pub fn run(r: &mut Runner) -> &'static str {
                         completion_ok = matches!(imp::v2_parse(&buf[..16 + lu]), Ok(Ok(ref h)) if h.header.len() == 16 + lu);
                     }
                     let deep = !quick || (l as usize + pi) % 64 == 0;
-                    if !exact || !completion_ok || (deep && have >= 16 && have + 1 == 16 + lu) {
-                        let c = Case { input: x.to_vec(), fill_seed: seed ^ l };
+                    let boundary = have == 16 + need && lu > need;
+                    if !exact || !completion_ok || (deep && have >= 16 && (have + 1 == 16 + lu || boundary)) {
+                        // on the address/TLV boundary the completion is TLV-structured (seed = 3 mod 4)
+                        let c = Case { input: x.to_vec(), fill_seed: if boundary { (seed ^ l) | 3 } else { seed ^ l } };
                         let mut scratch = Stats { frozen: true, ..Stats::default() };
                         if let Err(f) = judge_with(&c, &mut scratch, true) {
                             return Some((c, f));
@@ -284,7 +325,7 @@ pub fn run(r: &mut Runner) -> &'static str {
     };
     r.bulk(
         "c17.enumerate",
-        Some("24 valid control pairs x all 65536 declared lengths x bytes present in {0..15} U 16+{0,1,2,L/2,L-2,L-1}; all 65536 control pairs x 12..15 bytes present"),
+        Some("24 valid control pairs x all 65536 declared lengths x bytes present in {0..15} U 16+{0,1,2,address block size,L/2,L-2,L-1}; all 65536 control pairs x 12..15 bytes present"),
         &work,
         &judge,
     );
